@@ -23,7 +23,7 @@ RULE = ('Arithmetic tuples (sample_rate x num_branches x num_taps x num_chans x 
         'library default configuration; distinct by case hash.')
 ASSUMPTIONS = ['1e-9 relative boundary rule from the property', 'unit drift rate compared in magnitude',
                'sample counter installed by wrapping antenna.get_samples inside the harness']
-REQUIRED_CLASSES = ['recorded', 'recorded_multi_file', 'exact_multiple', 'array', 'single', 'bits=4', 'bits=8']
+REQUIRED_CLASSES = ['recorded', 'recorded_multi_file', 'near_boundary', 'before=preview_stream', 'before=aborted_record', 'before=earlier_record', 'exact_multiple', 'array', 'single', 'bits=4', 'bits=8']
 
 RATES = [3e9, 2.048e9, 187.5e6, 1e6, 3.3e9]
 BRANCHES = [8, 64, 1024, 4096]
@@ -37,7 +37,10 @@ NBLK = [1, 2, 5, 128]
 def dur_strategy():
     return st.one_of(
         st.fixed_dictionaries({'kind': st.just('generic'), 'x': gen.finite(0.0, 40.0)}),
-        st.fixed_dictionaries({'kind': st.just('multiple'), 'k': st.integers(0, 200), 'ulps': st.sampled_from([0, 0, 1, -1, 2])}))
+        st.fixed_dictionaries({'kind': st.just('multiple'), 'k': st.integers(0, 200), 'ulps': st.sampled_from([0, 0, 1, -1, 2])}),
+        # close to a block boundary but clearly (more than 1e-9 blocks) on one side of it
+        st.fixed_dictionaries({'kind': st.just('near'), 'k': st.integers(1, 200), 'side': st.sampled_from([1, -1]),
+                               'eps': st.sampled_from([3e-9, 1e-8, 1e-7, 5e-7, 1e-6, 1e-5])}))
 
 
 def strategy(tier):
@@ -50,6 +53,7 @@ def strategy(tier):
         'fftlength': st.sampled_from([1, 8, 256, 1024, 1048576]), 'int_factor': st.integers(1, 60),
         'tchans_per_block': st.integers(1, 64),
         'record': st.booleans(), 'nsb': st.integers(1, 6), 'bpf': st.sampled_from([1, 2, 3, 128]),
+        'before': st.sampled_from([None, None, 'preview_stream', 'aborted_record', 'earlier_record']), 'k': st.integers(1, 50),
     })
 
 
@@ -116,6 +120,9 @@ def run_case(case, ctx):
     for d in c['durs']:
         if d['kind'] == 'generic':
             T = float(d['x'] * tpb)
+        elif d['kind'] == 'near':
+            T = float((d['k'] + d['side'] * Fraction(d['eps'])) * tpb)
+            obs.cls('near_boundary')
         else:
             T = float(d['k'] * tpb)
             for _ in range(abs(d['ulps'])):
@@ -189,6 +196,26 @@ def run_case(case, ctx):
             counter['n'] += int(num_samples)
             counter['calls'] += 1
             return orig(num_samples)
+        before = c.get('before')
+        if before == 'preview_stream' and c['na'] == 1:
+            # a user looks at k samples of one polarisation stream directly before recording
+            obs.cls('before=preview_stream')
+            core.call(obs, 'stream.get_samples', src.x.get_samples, c.get('k', 7))
+        elif before in ('aborted_record', 'earlier_record'):
+            obs.cls('before=' + before)
+            state = {'n': 0}
+
+            def flaky(num_samples):
+                state['n'] += 1
+                if before == 'aborted_record' and state['n'] == 2:
+                    raise KeyboardInterrupt()
+                return orig(num_samples)
+            src.get_samples = flaky
+            try:
+                be.record(output_file_stem=ctx.path('earlier'), num_blocks=max(nb, 2), length_mode='num_blocks', header_dict={},
+                          digitize=True, load_template=False, verbose=False)
+            except KeyboardInterrupt:
+                pass
         src.get_samples = counting
         t_before = Fraction(src.t_start)
         stem = ctx.path('acc')
